@@ -19,7 +19,10 @@ RULE = ('seeded histories: 1..3 sessions x mode {polling, websocket-only, '
         '(+ yield at signalling operations), asyncio server with a seeded '
         'number of loop iterations between actions; thorough adds DFS over '
         'ALL cooperative schedules of "1 session, pending poll, 2 sends, full '
-        'handshake". distinct = distinct (server, modes, delivery-shape '
+        'handshake"; plus a systematic sweep: a late polling GET injected at '
+        'every scheduling step 0..25 after the handshake started x pending '
+        'poll or not x client waits for its poll before UPGRADE or not x '
+        'seeded yields at thread start / queue put. distinct = distinct (server, modes, delivery-shape '
         'signature: which transport carried each message and how sends fell '
         'relative to the handshake steps) signatures')
 ASSUMPTIONS = ['"the upgrade has begun" = the handler\'s first read on the '
@@ -28,7 +31,7 @@ ASSUMPTIONS = ['"the upgrade has begun" = the handler\'s first read on the '
                'the other was called; overlapping polls leave cross-response '
                'order undefined']
 REQUIRED = ['at_most_once', 'order_pairs', 'poll_returns_all', 'noop_only',
-            'completeness']
+            'completeness', 'late_poll_positions']
 SHARD_TIMEOUT = {'quick': 400, 'thorough': 3000}
 
 MODES = ['polling', 'websocket', 'upgrade', 'fail-then-poll', 'fail-then-ok']
@@ -244,7 +247,8 @@ def run_history(rec, case):
                     sim.quiesce()
                     s.up_state = 'failed'
                 elif s.plan != 'fail-then-poll':
-                    R.upgrade_start(s, script='correct')
+                    R.upgrade_start(s, script=rng.choice(
+                        ['correct', 'correct', 'eager']))
             elif k < 0.95:
                 R.advance(rng.choice([1, 5, 25]))
             pause()
@@ -320,9 +324,54 @@ def dfs_small(rec, case):
     rec.count('dfs_leaves', leaves)
 
 
+def late_poll(rec, case):
+    """Systematic: a polling GET injected k scheduling steps after the
+    handshake started (every position relative to probe read / NOOP queued /
+    UPGRADE read / writer started), then sends; threaded server additionally
+    under seeded yields at thread start / queue put."""
+    from vf.simt import WsConnT
+    from vf.sima import WsConnA
+    WsConnT.accept_clk_safe = _accept_clk_safe
+    WsConnA.accept_clk_safe = _accept_clk_safe
+    srv, k, seed, script = case['srv'], case['k'], case['sched'], \
+        case['script']
+    rec.evaluations += 1
+    sim = scen.make_sim(srv, policy='random' if seed else 'fifo', seed=seed,
+                        yield_prob=0.5 if seed else 0.0)
+    R = hist.Runner(sim)
+
+    def V(key, msg):
+        rec.viol(key, msg + ' | LATE-POLL server=%s k=%d sched=%d script=%s '
+                 'history=%s' % (srv, k, seed, script, R.witness(20)), case)
+    try:
+        s = R.open('polling')
+        if case['pending']:
+            R.poll(s)
+        sim.quiesce()
+        R.upgrade_start(s, script)
+        sim.step(k)
+        R.poll(s)
+        sim.step(case['k2'])
+        R.send(s, 'text')
+        sim.quiesce()
+        R.send(s, 'binary')
+        sim.quiesce()
+        R.poll(s)
+        sim.quiesce()
+        drain(R)
+        rec.count('late_poll_positions')
+        check_history(rec, R, case, V)
+        rec.key('late/%s/%d/%s/%s' % (srv, k, script, ''.join(
+            'w' if d['via'] == 'ws' else 'p' for d in R.deliveries)))
+    finally:
+        sim.teardown()
+
+
 def dispatch(rec, case):
     if case.get('dfs'):
         dfs_small(rec, case)
+    elif case.get('late'):
+        late_poll(rec, case)
     else:
         run_history(rec, case)
 
@@ -331,6 +380,21 @@ def plan(tier, seed):
     n = 16
     per = 2500 if tier == 'thorough' else 600
     shards = [{'seed': seed, 'shard': s, 'n': per} for s in range(n)]
+    late = []
+    for srv in 'TA':
+        for k in range(0, 26):
+            for k2 in (0, 1, 3):
+                for script in ('correct', 'eager'):
+                    for pending in (True, False):
+                        seeds = [0] if srv == 'A' else (
+                            [0] + [seed * 100 + i for i in range(
+                                1, 5 if tier == 'quick' else 40)])
+                        for sd in seeds:
+                            late.append({'late': True, 'srv': srv, 'k': k,
+                                         'k2': k2, 'script': script,
+                                         'pending': pending, 'sched': sd})
+    for i in range(4):
+        shards.append({'lates': late[i::4]})
     if tier == 'thorough':
         shards.append({'dfs': True, 'limit': 200000, 'kind2': 'binary'})
         shards.append({'dfs': True, 'limit': 200000, 'kind2': 'json'})
@@ -341,7 +405,9 @@ def plan(tier, seed):
 
 def run_shard(spec):
     rec = Rec()
-    if spec.get('dfs'):
+    if spec.get('lates'):
+        scen.run_cases(rec, spec['lates'], dispatch)
+    elif spec.get('dfs'):
         scen.run_cases(rec, [spec], dispatch)
     else:
         cases = [{'seed': spec['seed'], 'i': spec['shard'] * 1000000 + k}
